@@ -235,6 +235,10 @@ def build(items, first="init"):
     from dagrt.language import CodeBuilder, DAGCode, ExecutionPhase
     with CodeBuilder(first) as cb0:
         cb0.assign("<p>g", 1)
+        # the first phase uses main's per-step names for values of another kind: per-step variables are per phase
+        for nm in ("u", "w", "b"):
+            cb0.assign(nm, "<builtin>array(2)")
+        cb0.assign("r", 1j)
     with CodeBuilder("main") as cb:
         for _, stmts in items:
             for lhs, rhs, loops in stmts:
